@@ -27,12 +27,17 @@ pub struct OnchainMonitor {
 	relayed_by: HashMap<Txid, usize>,
 	/// per node: input set -> last feerate (sat per 1000 weight) relayed
 	feerates: HashMap<(usize, Vec<OutPoint>), (u64, Txid)>,
+	/// per claim: the chain height (as of the observation stream) at which it was first seen
+	first_seen: HashMap<(usize, Vec<OutPoint>), u32>,
+	cur_height: u32,
+	/// transactions a reorganisation removed from the chain and that have not confirmed again
+	reorged: std::collections::HashSet<Txid>,
 	judged: bool,
 }
 
 impl OnchainMonitor {
 	pub fn new() -> Self {
-		OnchainMonitor { commits: HashMap::new(), claims: vec![], relayed_by: HashMap::new(), feerates: HashMap::new(), judged: false }
+		OnchainMonitor { commits: HashMap::new(), claims: vec![], relayed_by: HashMap::new(), feerates: HashMap::new(), first_seen: HashMap::new(), cur_height: crate::chain::BASE_HEIGHT, reorged: Default::default(), judged: false }
 	}
 	fn fee_of(w: &World, tx: &Transaction) -> Option<u64> {
 		let mut inv = 0u64;
@@ -62,6 +67,24 @@ impl Monitor for OnchainMonitor {
 					self.claims.push((*node, h.to_string(), w.chain.height()));
 				}
 			},
+			Obs::Reorg { unconfirmed, fork_height, .. } => {
+				// a claim whose parent left the chain, or that was first made in a block that is gone, starts afresh
+				// (the monitor forgets claims registered above the fork point and builds new ones at the fee level
+				// of the moment): U1f follows one claim, not its successor
+				let before = self.feerates.len();
+				let first_seen = &self.first_seen;
+				self.feerates.retain(|k, _| !k.1.iter().any(|i| unconfirmed.contains(&i.txid)) && first_seen.get(k).map(|h| *h <= *fork_height).unwrap_or(true));
+				self.first_seen.retain(|k, _| self.feerates.contains_key(k));
+				self.cur_height = *fork_height;
+				v.rep.add("onchain_u1f_claims_restarted_by_a_reorg_of_their_parent", (before - self.feerates.len()) as u64);
+				self.reorged.extend(unconfirmed.iter().cloned());
+			},
+			Obs::BlockConnected { txids, height, .. } => {
+				self.cur_height = *height;
+				for t in txids {
+					self.reorged.remove(t);
+				}
+			},
 			Obs::Relay { node, tx, verdict, .. } => {
 				if *node == usize::MAX {
 					return; // the harness acting for a cheater
@@ -73,6 +96,17 @@ impl Monitor for OnchainMonitor {
 				}
 				v.rep.count("onchain_u1_broadcasts_validated");
 				match verdict {
+					TxVerdict::Invalid(why) if why.contains("on an unconfirmed parent") && tx.input.iter().any(|i| self.reorged.contains(&i.previous_output.txid)) => {
+						// a claim on an output of a transaction that a reorganisation has just removed: told with
+						// `transaction_unconfirmed` about a commitment transaction, the monitor keeps the claims it
+						// registered on it and re-offers them before the commitment confirms again
+						v.rep.count("onchain_rebroadcasts_on_a_parent_that_is_reorganised_away");
+					},
+					TxVerdict::Invalid(why) if why.ends_with("[tip below the highest tip seen]") && (why.contains("not final at height") || why.contains("BIP68 needs")) => {
+						// a reorganisation lowered the tip below the height at which this transaction had become final
+						// (neither C06 nor C07 quantifies over reorganisations; the node re-offers it every block)
+						v.rep.count("onchain_rebroadcasts_not_final_any_more_after_a_reorg");
+					},
 					TxVerdict::Invalid(why) => {
 						let prop = if w.close.as_ref().map(|c| c.revoked).unwrap_or(false) { "C06" } else { "C07" };
 						v.violation(prop, "U1-valid-broadcast", &format!("a node broadcast a transaction that is not valid and final: {}", canon(why.split(": ").nth(1).unwrap_or(why))), format!("node{}: {}", node, why));
@@ -80,7 +114,11 @@ impl Monitor for OnchainMonitor {
 					TxVerdict::Conflict => v.rep.count("onchain_broadcasts_conflicting_with_a_confirmed_spend"),
 					_ => {
 						// U1f: same node, same inputs => feerate never goes down
-						if let Some(fee) = Self::fee_of(w, tx) {
+						// (what is issued while the parent is off the chain after a reorganisation belongs to the claim
+						// that ended with it)
+						if tx.input.iter().any(|i| self.reorged.contains(&i.previous_output.txid)) {
+							v.rep.count("onchain_u1f_broadcasts_on_a_parent_that_is_reorganised_away");
+						} else if let Some(fee) = Self::fee_of(w, tx) {
 							let mut ins: Vec<OutPoint> = tx.input.iter().map(|i| i.previous_output).collect();
 							ins.sort();
 							// feerate in millisat per weight unit; integer rounding of fee = feerate * weight jitters it by
@@ -95,6 +133,7 @@ impl Monitor for OnchainMonitor {
 									}
 								}
 							}
+							self.first_seen.entry((*node, ins.clone())).or_insert(self.cur_height);
 							self.feerates.insert((*node, ins), (rate, txid));
 						}
 					},
